@@ -23,19 +23,19 @@ open Comdex Comdex.Vault Comdex.C01
 /-- **Supply = principal** (histories without auction settlement, liquidation seizures included): the supply of every
 denom equals the principal recorded on open vaults, stable-mint vaults and vaults awaiting auction, plus whatever was
 minted outside the vault module (`extSupply`, zero for an asset that is minted only through vaults). -/
-theorem supply_eq_principal (cfg : Nat → Option Product) (hc : CfgOk cfg) (h : History) (hu : UsersOk h) (hn : NoSettle h)
+theorem supply_eq_principal (cfg : Nat → Option Product) (hc : CfgOk cfg) (h : History) (hu : UsersOk h) (hne : NoEsmStable h) (hn : NoSettle h)
     (d : Nat) :
     let s := runAll cfg State.init h
     s.supply d = principalRecorded cfg s d + s.extSupply d :=
-  (inv_always cfg hc h hu hn).2.2.2.2.1 d
+  (inv_always cfg hc h hu hne hn).2.2.2.2.1 d
 
 /-- **Supply ≤ principal** after EVERY history — vault messages, liquidation seizures AND auction settlements (which
 burn principal + interest + closing fee of the seized vault): the circulating supply never exceeds the recorded
 principal of open, stable-mint and awaiting-auction vaults (plus outside funding). -/
-theorem supply_le_principal (cfg : Nat → Option Product) (hc : CfgOk cfg) (h : History) (hu : UsersOk h) (d : Nat) :
+theorem supply_le_principal (cfg : Nat → Option Product) (hc : CfgOk cfg) (h : History) (hu : UsersOk h) (hne : NoEsmStable h) (d : Nat) :
     let s := runAll cfg State.init h
     s.supply d ≤ principalRecorded cfg s d + s.extSupply d := by
-  obtain ⟨G', h', g, _⟩ := invG_always cfg hc h hu Gaps.zero State.init ((invG_zero cfg _).mpr (init_inv cfg hc)) goodGaps_zero
+  obtain ⟨G', h', g, _⟩ := invG_always cfg hc h hu hne Gaps.zero State.init ((invG_zero cfg _).mpr (init_inv cfg hc)) goodGaps_zero
   have := h'.2.2.2.2.1 d
   have := g.2.2.2.2 d
   simp only [SupplyAtG] at *
@@ -45,11 +45,11 @@ theorem supply_le_principal (cfg : Nat → Option Product) (hc : CfgOk cfg) (h :
 moves by exactly the change of recorded principal (plus outside funding). Interest and closing-fee transfers do not
 touch recorded principal, hence do not touch supply. -/
 theorem supply_moves_with_principal (cfg : Nat → Option Product) (hc : CfgOk cfg) (s s' : State) (e : Env) (m : Msg)
-    (hm : m.userOk) (hns : m.notSettle) (hinv : Inv cfg s) (h : step cfg s e m = some s') (d : Nat) :
+    (hm : m.userOk) (hns : m.notSettle) (hne : m.notEsmStable) (hinv : Inv cfg s) (h : step cfg s e m = some s') (d : Nat) :
     s'.supply d - s.supply d =
       (principalRecorded cfg s' d - principalRecorded cfg s d) + (s'.extSupply d - s.extSupply d) := by
   have h1 := hinv.2.2.2.2.1 d
-  have h2 := ((invG_zero cfg s').mp (step_inv cfg Gaps.zero hc s s' e m hm hns ((invG_zero cfg s).mpr hinv) h)).2.2.2.2.1 d
+  have h2 := ((invG_zero cfg s').mp (step_inv cfg Gaps.zero hc s s' e m hm hns hne ((invG_zero cfg s).mpr hinv) h)).2.2.2.2.1 d
   unfold SupplyAt at h1 h2
   omega
 
@@ -154,5 +154,46 @@ example : (runAll demoCfg State.init demoHistory).supply 3 = 2000000 ∧
     principalRecorded demoCfg (runAll demoCfg State.init demoHistory) 3 = 2000000 := by decide
 example : ∃ s', create (runAll demoCfg State.init [(demoEnv, .fund 10 1 5000000)]) demoProduct demoEnv 10 1 1 3000000 2000000 = some s' ∧
     s'.bal 10 3 = 1980000 ∧ s'.bal cm 3 = 20000 := ⟨_, rfl, by decide, by decide⟩
+
+/-! ### emergency redemption (x/esm): "debt registered for emergency redemption"
+
+In the supply equation the register is part of `extSupply` (supply not backed by a vault record); the two theorems below
+tie it to the explicit register `redeem`: redemption of a vault moves exactly its principal from the vault record to the
+register without touching the supply, and a holder's redemption burns exactly what it takes off the register and never
+more than is registered. -/
+
+theorem esmVault_registers_principal (s s' : State) (p : Product) (e : Env) (vaultId : Nat)
+    (h : esmVault s p e vaultId = some s') :
+    ∃ v ∈ s.vaults, v.id = vaultId ∧ e.esm = true ∧ e.pastCoolOff = true ∧
+      s'.supply = s.supply ∧
+      s'.redeem p.app p.denomOut = s.redeem p.app p.denomOut + v.amountOut ∧
+      s'.extSupply p.denomOut = s.extSupply p.denomOut + v.amountOut := by
+  unfold esmVault at h
+  cases hf : findVault s vaultId with
+  | none => simp [hf] at h
+  | some v0 =>
+    simp only [hf] at h
+    split at h; · cases h
+    next hg =>
+    simp only [not_or, Decidable.not_not] at hg
+    unfold findVault at hf
+    obtain ⟨hm, hid⟩ := find_mem (·.id) s.vaults vaultId v0 hf
+    simp only [Option.map_eq_some_iff] at h
+    obtain ⟨s1, hb, rfl⟩ := h
+    have eff := runBank_effect _ s s1 hb
+    refine ⟨v0, hm, hid, hg.2.1, hg.2.2, ?_, ?_, ?_⟩
+    · funext d; simp [eff.supply, netSup, BankOp.dSup]
+    · simp [eff.same.redeem, upd2]
+    · simp [eff.same.extSupply, upd1]
+
+theorem esmBurn_burns_registered (s s' : State) (from_ app d : Nat) (x : Int) (h : esmBurn s from_ app d x = some s') :
+    0 < x ∧ x ≤ s.redeem app d ∧ s'.supply d = s.supply d - x ∧ s'.redeem app d = s.redeem app d - x ∧
+      s'.bal from_ d = s.bal from_ d - x ∧ s'.vaults = s.vaults ∧ s'.stables = s.stables ∧ s'.locked = s.locked := by
+  unfold esmBurn at h
+  split at h; · cases h
+  next hg =>
+  simp only [not_or, Int.not_le, Int.not_lt] at hg
+  cases h
+  refine ⟨hg.1, by omega, by simp [upd1], by simp [upd2], by simp [upd2], rfl, rfl, rfl⟩
 
 end Comdex.C02
